@@ -46,13 +46,30 @@ func vNewDisk(t testing.TB, dir string, max int64, opts ...Option) *diskCache {
 	return c.(*metricsDecorator).diskCache
 }
 
-// vQuiesce waits until the background remover has no backlog.
+// vQuiesce waits until the background remover has no backlog.  The remover takes its batch from
+// the channel before it unlinks, and zero-length files do not show in queuedEvictionsSize, so an
+// empty channel and a zero counter do not yet mean that it is idle: we also wait (bounded) until no
+// file is left that the index does not know.  A file that stays is a genuine leftover.
 func vQuiesce(c *diskCache) {
 	for i := 0; i < 5000; i++ {
 		if c.lru.queuedEvictionsSize.Load() == 0 && len(c.lru.queuedEvictionsChan) == 0 {
-			return
+			break
 		}
 		time.Sleep(time.Millisecond)
+	}
+	for i := 0; i < 400; i++ {
+		idx := vIndexFiles(c)
+		stray := false
+		for _, f := range vListing(c.dir) {
+			if _, ok := idx[f.Name]; !ok {
+				stray = true
+				break
+			}
+		}
+		if !stray {
+			return
+		}
+		time.Sleep(5 * time.Millisecond)
 	}
 }
 
@@ -62,9 +79,30 @@ type vFile struct {
 	Length int64
 }
 
+// vPrefixes lets a harness case restrict the (expensive) recursive listing to the two-character
+// sub-directories its keys can live in; the case ends with one full listing.
+var vPrefixes sync.Map // dir -> []string
+
 // vListing returns the regular files under the cache directory: "<kinddir>/<xx>/<name>" -> length
 func vListing(dir string) []vFile {
 	var out []vFile
+	if p, ok := vPrefixes.Load(dir); ok {
+		for _, kd := range []string{"ac.v2", "cas.v2", "raw.v2"} {
+			for _, pre := range p.([]string) {
+				des, err := os.ReadDir(filepath.Join(dir, kd, pre))
+				if err != nil {
+					continue
+				}
+				for _, de := range des {
+					if info, err := de.Info(); err == nil && !de.IsDir() {
+						out = append(out, vFile{Kind: kd, Name: kd + "/" + pre + "/" + de.Name(), Length: info.Size()})
+					}
+				}
+			}
+		}
+		sort.Slice(out, func(i, j int) bool { return out[i].Name < out[j].Name })
+		return out
+	}
 	_ = filepath.Walk(dir, func(p string, info os.FileInfo, err error) error {
 		if err != nil || info.IsDir() {
 			return nil
